@@ -34,7 +34,8 @@ CHECKS.update({
                   "threshold graph as membership predicates, the search followed on bounded candidate lists with a feasibility "
                   "oracle, + CFG/def-use site rules on the threshold search",
             CLAUSE + "Decides BN-COST, BN-TILE (slice stores, paired index-array diagonal stores, pre-filled base with explicit "
-            "corner), BN-GRAPH (the graph handed to the matching library is {(r, c): D[r, c] <= d} cell by cell — sets of columns "
+            "corner), BN-CAND (every finite cell of the matrix is among the candidate thresholds — the parts handed to np.unique "
+            "are enumerated positionally on small sizes), BN-GRAPH (the graph handed to the matching library is {(r, c): D[r, c] <= d} cell by cell — sets of columns "
             "are membership predicates, compared with the thresholded matrix on sizes up to 3+3 with d at / between / below the "
             "entries), BN-FILTER/WARN, BN-THRESH, BN-PERFECT, BN-BISECT, BN-ORDER, BN-EMPTY: the "
             "augmented matrix is the statement's cost model for every size, and the search's structural invariants hold. "
@@ -71,7 +72,7 @@ CHECKS.update({
     "C14": (True, "symbolic evaluation of the kernel double loop to a ΣΣ normal form; translation-weight and units typing; "
                   "sign analysis of the radicand",
             CLAUSE + "Decides HT-KER (incl. inputs with exact and near ties: conditions that select rows are exercised on both "
-            "sides), HT-DIST, HT-SWAP, HT-UNITS, HT-REAL, HT-STATE and proves HT-SHIFT (row-selecting conditions are typed too) (translation invariance for "
+            "sides), HT-DIST, HT-SWAP, HT-UNITS, HT-REAL, HT-STATE, HT-DTYPE and proves HT-SHIFT (row-selecting conditions are typed too) (translation invariance for "
             "every input, exact arithmetic). Declines: exact zeros in floating point, triangle inequality, stability.",
             SYMNOTE + "sigma > 0.", "DESIGN.md §4 C14"),
 })
@@ -136,7 +137,8 @@ CHECKS.update({
 CHECKS.update({
     "C10": (True, "symbolic evaluation of the segment integrator with a symbolic exponent; sign analysis with branch "
                   "refinement at every power site; degree typing with a symbolic exponent; site rules for sup-norm and wiring",
-            CLAUSE + "Decides NM-SIGN, NM-FORM (summand = integral of |line|^p in all three arms), NM-HOM (degree 1), NM-ARMS, "
+            CLAUSE + "Decides NM-LAZY (must-pass-through: every read of the lazily computed data in p_norm / sup_norm lies behind a call that "
+            "always runs compute_landscape(), through the MRO), NM-SIGN, NM-FORM (summand = integral of |line|^p in all three arms), NM-HOM (degree 1), NM-ARMS, "
             "NM-SUP, NM-WIRE. Declines: triangle inequality, stability vs bottleneck, nearly flat segments.",
             SYMNOTE + "Abscissae strictly increasing along a depth; p >= 1.", "DESIGN.md §4 C10"),
 })
@@ -178,7 +180,8 @@ CHECKS.update({
 CHECKS.update({
     "C18": (True, "inter-procedural effect analysis (transform is read-only), call-wiring rule for fit_transform, and "
                   "history-dependence analysis by symbolically executing two successive fits on different generic data",
-            CLAUSE + "Decides TF-RO, TF-FT, TF-ORDER, TF-HIST. The landscaper latches start/stop across fits: genuine defect "
+            CLAUSE + "Decides TF-RO, TF-DATA (fit / transform / fit_transform never write through the data they are given), TF-FT, "
+            "TF-ORDER, TF-HIST. The landscaper latches start/stop across fits: genuine defect "
             "kept as known findings K2-start/K2-stop (a latch on any other attribute is still reported). Declines: numerical "
             "equality of outputs across calls.",
             SYMNOTE + "scikit-learn's TransformerMixin.fit_transform is fit(X).transform(X).", "DESIGN.md §4 C18, §5 K2"),
@@ -191,7 +194,8 @@ CHECKS.update({
                   "condition of the statement returning the sum (operands with independent symbolic grids), site rules for "
                   "padding/re-sampling on the helper-inlined view",
             CLAUSE + "Decides AR-EFFECT, AR-OWN, AR-LAZY, AR-GUARD, AR-UNARY, AR-PAD (evaluator-based: what union_vals / "
-            "union_crit_pairs return for operands of different depth), AR-SNAP, AR-LC, AR-DEFAULT, and — BOUNDED — AR-MERGE: the "
+            "union_crit_pairs return for operands of different depth), AR-SNAP (decided on the constructor calls observed while snap_pl is followed on two landscapes with independent symbolic "
+            "grids), AR-LAZYREAD (operators compute lazily built operands before reading them), AR-LC, AR-DEFAULT, and — BOUNDED — AR-MERGE: the "
             "slope merge (pos_to_slope_interp / sum_slopes / slope_to_pos_interp through union_crit_pairs) is followed for every "
             "ordering class (interleaving with ties) of the breakpoints of two depths with up to 3 breakpoints each (thorough: "
             "4; 126 / 787 classes), symbolic ordinates, and equals f_A + f_B at every breakpoint of the union. Declines: the "
